@@ -8,8 +8,10 @@ a connection at all is a reference-counting question — `dropped_closes` proves
 repaired fair queue (which releases its streams when dropped), `cycle_leaks` proves the
 **negation** for the queue as it was (an armed `StreamWaker` closes a strong cycle through the
 transport: the connection stays open for ever — reproduced on the real code, then repaired),
-`pending_handshake_survives` is the recorded finding that `close()` does not end a connection
-whose handshake is still running in its detached task.  (2) `Model.World.dropSocket`: what
+`pending_handshake_survives` is the negation for the accept loop as it was (a connection whose
+handshake was still running in its detached task outlived `close()` — finding D14, reproduced on
+the real runtime, then repaired: handshake tasks now also wait for their listener's stop signal),
+and `dropped_closes_all` is the statement at full strength for the tree with both repairs.  (2) `Model.World.dropSocket`: what
 `Drop`/`close()` do to the tables, tied to the real sockets half by half.
 PARTIAL: OS sockets, the tokio scheduler and timing ("shortly afterwards") are observed on an
 enumerated grid by the `net` engine, not modelled.
@@ -29,10 +31,17 @@ theorem C17_cycle_leaked (g : Cfg) (c : Nat) (hreg : g.registered c = true) (har
     (hfix : g.fqDropsStreams = false) : ¬ Freed g (.transport c) :=
   (cycle_leaks g c hreg harm hfix).2.1
 
-/-- **Finding**: a connection still in its handshake task is not closed by `close()`/`drop`. -/
-theorem C17_finding_pending_handshake (g : Cfg) (c : Nat) (hhs : g.handshaking c = true) :
-    ¬ Freed g (.rhalf c) :=
-  pending_handshake_survives g c hhs
+/-- **Every connection is closed** (both repairs): once the socket is dropped or closed, every
+connection — registered or still in its handshake, whatever recv had been pending — is closed. -/
+theorem C17_all_closed (g : Cfg) (hdrop : g.sockHeld = false) (hfix : g.fqDropsStreams = true)
+    (hfix14 : g.hsStops = true) (c : Nat) : Freed g (.transport c) :=
+  dropped_closes_all g hdrop hfix hfix14 c
+
+/-- **The second defect that was there** (negation): with handshakes running as detached tasks, a
+connection still in its handshake was not closed by `close()`/`drop`. -/
+theorem C17_pending_handshake_leaked (g : Cfg) (c : Nat) (hhs : g.handshaking c = true)
+    (hfix14 : g.hsStops = false) : ¬ Freed g (.rhalf c) :=
+  pending_handshake_survives g c hhs hfix14
 
 /-- **Partial**: … but the accept tasks are always released — their only owner is the
 stop-channel sender in the socket's bind table, which goes with the socket. -/
@@ -53,7 +62,9 @@ theorem C17_drop_releases_writes (w : World) (sid : Nat) (s : Socket) (hs : getS
   exact ⟨_, getSock_setSock_same _ _ _, rfl, rfl, rfl, rfl⟩
 
 /-- non-vacuity: a configuration with a registered, armed connection and a dropped socket -/
-example : ∃ g : Cfg, g.sockHeld = false ∧ g.registered 0 = true ∧ g.armed 0 = true ∧ g.fqDropsStreams = true :=
-  ⟨⟨false, fun _ => true, fun _ => true, fun _ => false, fun _ => false, true⟩, rfl, rfl, rfl, rfl⟩
+example : ∃ g : Cfg, g.sockHeld = false ∧ g.registered 0 = true ∧ g.armed 0 = true ∧ g.fqDropsStreams = true ∧
+    g.handshaking 1 = true ∧ g.hsStops = true :=
+  ⟨⟨false, fun c => c == 0, fun _ => true, fun c => c == 1, fun _ => false, true, fun _ => 0, true⟩,
+   rfl, rfl, rfl, rfl, rfl, rfl⟩
 
 end Zmq.C17
